@@ -264,3 +264,12 @@ package schedulerplugin
 //@   ensures [C20:applied-config-is-recorded] result1 == nil && result0 ==> *lastConf == newConf
 //@   ensures [C20:unchanged-text-is-a-noop] newConf == old(*lastConf) ==> !result0 && result1 == nil && *lastConf == old(*lastConf)
 //@   modifies all
+
+// ---- lock discipline of the plugin's own caches (C19) ----
+//@ guarded [C19] FloatingIPPlugin.nodeSubnet by nodeSubnetLock
+//@ guarded [C19] crdKey.keyToGVR by Mutex
+// getNodeSubnetfromIPAM (ipam.go) writes the cache and is only called with the lock held: it is
+// inlined into its two callers (getNodeSubnet, queryNodeSubnet), where the obligation is generated
+// popularCache fills the cache and is only called by GetGroupVersionResource, with the lock held
+//@ func [C19] (*crdKey).popularCache
+//@   requires [C19] held[lockfield(c, Mutex)] == 2
